@@ -397,6 +397,10 @@ func firstLineMetrics(firstLine *pango.LayoutLine, text []rune, layout *TextLayo
 		length = 0
 		if firstLine != nil {
 			length = firstLine.Length
+			// SetText adds a zero-width space to a lone space with word-spacing
+			if L := len([]rune(firstLineText)); length > L {
+				length = L
+			}
 		}
 	}
 
